@@ -19,19 +19,26 @@ Full statements (`C20_*_Statement`) quantify over every node kind.  Proved:
   tree in the label-height calculus of Lemmas/C20Flow*.lean: the generated code has one (rsp, x87)
   height per label, every jump and every fall-through arrives at its label's height, control falls
   out of an expression at (0, +1 iff long double) and out of a statement at (0, 0), every `return`
-  is reached with rsp = 0.  That the labels of the code are pairwise distinct is PROVED for the labels
-  made up from `count()` (freshness of the monotone counter: Lemmas/C20Labels.lean, C20Fresh.lean) and
-  for the numeric local labels; the one hypothesis about the code is `userDistinct`: the labels that
-  come from the parser occur once each (decidable, evaluated on every emitted function).
+  is reached with rsp = 0.  That the labels of the code are pairwise distinct is PROVED: for the labels
+  made up from `count()` from the freshness of the monotone counter (Lemmas/C20Labels.lean, C20Fresh.lean),
+  for the numeric local labels by renaming, and for the labels that come from the parser
+  (`C20_parser_labels_distinct`, Lemmas/C20TreeLabels.lean) from a fact about the TREE: `treeDistinct` — the
+  labels parse.c gave the loops, switches, `case`s and labelled statements of the function with
+  `new_unique_name()` are pairwise distinct (decidable; evaluated on every dumped function).  No
+  hypothesis about the emitted lines is left.
   Scope (`flowE/flowS/flowFn`, Model/C20Flow.lean, decidable): every jump stays inside its region
   (function body / body of a statement expression; outside: known finding C20-jump-out-of-stmt-expr),
   `return` agrees with the function's return type.
-* `C20_checkBody_sound` — the executable whole-function check accepts only `FnBalanced` code.
+* `C20_checkBody_sound`, `C20_checkBody_complete`, `C20_checkBody_iff`, `C20_checkBody_balanced` — the
+  executable whole-function check (label heights inferred to a fixpoint, then verified) accepts EXACTLY
+  the code for which some labelling passes `Effect.verify`; code that is `FnBalanced` is rejected only
+  with the range complaint (`rangeMsg c`, `okH c = false`: a reachable height above the frame or outside
+  the eight x87 registers).  `C20_function_check_partial`: for every function in scope the check accepts
+  or complains about the range — no other complaint is possible.
 What stays open: `C20_expr_Statement` / `C20_stmt_Statement` / `C20_function_Statement` as stated are
 FALSE (Findings/C20.lean: a jump out of a statement expression; more than eight long double values
-live on the x87 stack; and `checkBody`'s three-pass label inference is incomplete); the range half of
-`checkBody` (rsp never above the frame, at most eight x87 registers) is not proved and stays with the
-executable check on every emitted function.
+live on the x87 stack); the range half of `checkBody` (rsp never above the frame, at most eight x87
+registers) is not proved and stays with the executable check on every emitted function.
 
 Property theorems only; helper lemmas are in Lemmas/C20*.lean.
 -/
@@ -39,6 +46,8 @@ import ChibiVerif.Lemmas.C20Induction
 import ChibiVerif.Lemmas.C20Typing
 import ChibiVerif.Lemmas.C20Depth
 import ChibiVerif.Lemmas.C20FlowTop
+import ChibiVerif.Lemmas.C20Complete
+import ChibiVerif.Lemmas.C20TreeLabels
 
 namespace ChibiVerif.Props.C20
 open ChibiVerif ChibiVerif.Codegen ChibiVerif.Effect ChibiVerif.Asm ChibiVerif.Ast
@@ -206,6 +215,38 @@ theorem C20_cast_table : ∀ t1, t1 < 11 → ∀ t2, t2 < 11 →
      | none => some H.zero) = some ⟨0, f80 t2 - f80 t1⟩ :=
   castTable_delta
 
+/-! ## the parser's labels -/
+
+/-- **The parser's labels occur once each in the generated code.**  For every tree (every node kind;
+    side condition `okN`: aggregate argument sizes are not negative) whose parser labels — the
+    `break`/`continue` labels of its loops and switches, its `case`/`default` labels and labelled
+    statements, in all regions (`labsN`) — are pairwise distinct, the code `gen_expr`, `gen_addr` or
+    `gen_stmt` prints defines each of them at most once (`userDistinct`): every operand's code is
+    printed at most once and a label line only where the tree has the label; the labels made up from
+    `count()` and the numeric local labels are never spelled like a parser label.  This replaces the
+    hypothesis about the emitted lines of the label-height theorems by a fact about the tree. -/
+theorem C20_parser_labels_distinct (env : Env) (n : Node) (hok : okN n = true) (hd : treeDistinct n = true)
+    (s s' : St) (ls : List Line)
+    (hg : genExpr env n s = .ok ((), s', ls) ∨ genAddr env n s = .ok ((), s', ls) ∨
+      genStmt env n s = .ok ((), s', ls)) :
+    userDistinct ls = true := by
+  rcases hg with hg | hg | hg
+  · exact userDistinct_of_tree_expr hok hd hg
+  · exact userDistinct_of_tree_addr hok hd hg
+  · exact userDistinct_of_tree_stmt hok hd hg
+
+example : okN (.for_ ⟨none, 1, 1⟩ .null (.num ⟨none, 1, 1⟩ 1 0 0 0 0) .null
+      (.do_ ⟨none, 1, 1⟩ (.block ⟨none, 1, 1⟩ .nil) (.num ⟨none, 1, 1⟩ 0 0 0 0 0) (some ".L..3") (some ".L..4"))
+      (some ".L..1") (some ".L..2")) = true
+  ∧ treeDistinct (.for_ ⟨none, 1, 1⟩ .null (.num ⟨none, 1, 1⟩ 1 0 0 0 0) .null
+      (.do_ ⟨none, 1, 1⟩ (.block ⟨none, 1, 1⟩ .nil) (.num ⟨none, 1, 1⟩ 0 0 0 0 0) (some ".L..3") (some ".L..4"))
+      (some ".L..1") (some ".L..2")) = true
+  -- the hypothesis is not vacuous: a tree that uses one label for two loops fails it
+  ∧ treeDistinct (.for_ ⟨none, 1, 1⟩ .null (.num ⟨none, 1, 1⟩ 1 0 0 0 0) .null
+      (.do_ ⟨none, 1, 1⟩ (.block ⟨none, 1, 1⟩ .nil) (.num ⟨none, 1, 1⟩ 0 0 0 0 0) (some ".L..1") (some ".L..4"))
+      (some ".L..1") (some ".L..2")) = false := by
+  decide
+
 /-! ## code with labels: every node kind -/
 
 /-- **C20_expr (every expression kind, code with labels included).**  For every well-typed expression
@@ -215,14 +256,16 @@ theorem C20_cast_table : ∀ t1, t1 < 11 → ∀ t2, t2 < 11 →
     that every jump and every fall-through arrives at its label's height, and control falls out of
     its end — if it can — with Δrsp = 0 and Δx87 = +1 iff the node's type is long double; `depth` is
     back where it was.  The labels the code generator makes up from `count()` are proved pairwise
-    distinct (freshness of the monotone counter, Lemmas/C20Labels.lean, Lemmas/C20Fresh.lean); `hu`: the
-    labels that come from the parser (`break`/`continue`/`case`/`goto` labels inside statement
-    expressions) occur once each in the code (decidable; evaluated on every function the real compiler
-    emits). -/
+    distinct (freshness of the monotone counter, Lemmas/C20Labels.lean, Lemmas/C20Fresh.lean); `hd`: the
+    labels the TREE got from the parser (`break`/`continue`/`case` labels and labelled statements inside
+    statement expressions) are pairwise distinct (decidable; a fact about `parse.c`'s `new_unique_name()`,
+    evaluated on every function the real front end dumps) — from which it is proved that they occur once
+    each in the code (`C20_parser_labels_distinct`). -/
 theorem C20_expr_flow_partial (env : Env) (n : Node) (ht : typedE env n = true) (hf : flowE n = true)
-    (s s' : St) (ls : List Line) (hg : genExpr env n s = .ok ((), s', ls))
-    (hu : userDistinct ls = true) :
+    (hd : treeDistinct n = true)
+    (s s' : St) (ls : List Line) (hg : genExpr env n s = .ok ((), s', ls)) :
     BalancedOrLeaves ls ⟨0, x87Of n⟩ ∧ s'.depth = s.depth := by
+  have hu := userDistinct_of_tree_expr (okN_of_flowE n hf) hd hg
   obtain ⟨h1, h2⟩ := (fexpr env n ht hf).elim hg
   exact ⟨by simpa [x87Of, xOf] using balancedOrLeaves_of_FlowP h1 hu, by simpa using h2⟩
 
@@ -236,10 +279,11 @@ example : typedE { fpic := false, types := [] }
     in a jump only if a statement expression in it does), the code is `Balanced`: control leaves it
     with Δrsp = 0 and Δx87 = +1 iff the node's type is long double. -/
 theorem C20_expr_flow_balanced_partial (env : Env) (n : Node) (ht : typedE env n = true) (hf : flowE n = true)
+    (hd : treeDistinct n = true)
     (s s' : St) (ls : List Line) (hg : genExpr env n s = .ok ((), s', ls))
-    (hu : userDistinct ls = true) (hft : fallsThrough ls = true) :
+    (hft : fallsThrough ls = true) :
     Balanced ls ⟨0, x87Of n⟩ ∧ s'.depth = s.depth := by
-  obtain ⟨h1, h2⟩ := C20_expr_flow_partial env n ht hf s s' ls hg hu
+  obtain ⟨h1, h2⟩ := C20_expr_flow_partial env n ht hf hd s s' ls hg
   exact ⟨balanced_of_fallsThrough h1 hft, h2⟩
 
 example : typedE { fpic := false, types := [] }
@@ -249,9 +293,10 @@ example : typedE { fpic := false, types := [] }
 
 /-- **C20_addr (every lvalue kind).**  The same for `gen_addr`: Δrsp = 0, Δx87 = 0. -/
 theorem C20_addr_flow_partial (env : Env) (n : Node) (ht : typedA env n = true) (hf : flowA n = true)
-    (s s' : St) (ls : List Line) (hg : genAddr env n s = .ok ((), s', ls))
-    (hu : userDistinct ls = true) :
+    (hd : treeDistinct n = true)
+    (s s' : St) (ls : List Line) (hg : genAddr env n s = .ok ((), s', ls)) :
     BalancedOrLeaves ls ⟨0, 0⟩ ∧ s'.depth = s.depth := by
+  have hu := userDistinct_of_tree_addr (okN_of_flowA n hf) hd hg
   obtain ⟨h1, h2⟩ := (faddr env n ht hf).elim hg
   exact ⟨balancedOrLeaves_of_FlowP h1 hu, by simpa using h2⟩
 
@@ -266,10 +311,10 @@ example : typedA { fpic := false, types := [] }
     its label's height — so no number of iterations of a loop in it accumulates residue — and control
     falls out of its end, if it can, at (0, 0). -/
 theorem C20_stmt_flow_partial (env : Env) (n : Node) (ht : typedS env n = true)
-    (hf : flowS (defsS n) none n = true)
-    (s s' : St) (ls : List Line) (hg : genStmt env n s = .ok ((), s', ls))
-    (hu : userDistinct ls = true) :
+    (hf : flowS (defsS n) none n = true) (hd : treeDistinct n = true)
+    (s s' : St) (ls : List Line) (hg : genStmt env n s = .ok ((), s', ls)) :
     BalancedOrLeaves ls ⟨0, 0⟩ ∧ s'.depth = s.depth := by
+  have hu := userDistinct_of_tree_stmt (okN_of_flowS _ _ n hf) hd hg
   have h := fstmt env (defsS n) none (at0 (defsS n)) (fun l hl => mem_at0.mpr ⟨hl, rfl⟩)
     (fun _ h => by cases h) n ht hf
   obtain ⟨h1, h2⟩ := (SemP_of_region h (fun l hl => mem_at0.mpr ⟨hl, rfl⟩)).elim hg
@@ -290,13 +335,16 @@ example : typedS { fpic := false, types := [] }
     runs on every emitted function, without its range test) with some labelling — one (rsp, x87)
     height per label, every jump and fall-through arrives at its label's height, every `return`
     leaves with rsp = 0 — and `assert(depth == 0)` holds.  That the labels of the code are pairwise
-    distinct is proved for the labels made up from the monotone counter `count()` and for the numeric
-    local labels; `hu`: the parser's labels (`userLabel`) occur once each in the code (decidable). -/
+    distinct is proved: for the labels made up from the monotone counter `count()`, for the numeric
+    local labels, and for the parser's labels from `hd`: the labels of the loops, switches, `case`s and
+    labelled statements of the TREE are pairwise distinct (decidable; no hypothesis about the emitted
+    lines). -/
 theorem C20_function_flow_partial (p : Program) (fn : Obj) (env : Env) (k : Int)
     (_he : fnEnv p fn = .ok (env, k)) (ht : typedS env fn.body = true) (hf : flowFn env fn.body = true)
-    (s s' : St) (ls : List Line) (hg : genStmt env fn.body s = .ok ((), s', ls))
-    (hu : userDistinct ls = true) :
+    (hd : treeDistinct fn.body = true)
+    (s s' : St) (ls : List Line) (hg : genStmt env fn.body s = .ok ((), s', ls)) :
     FnBalanced ls ∧ BalancedOrLeaves ls ⟨0, 0⟩ ∧ s'.depth = s.depth := by
+  have hu := userDistinct_of_tree_stmt (okN_of_flowS _ _ fn.body hf) hd hg
   have h := fstmt env (defsS fn.body) (some (isLD env.retTy))
     ((retLabel env, ⟨0, if isLD env.retTy then 1 else 0⟩) :: at0 (defsS fn.body))
     (fun l hl => List.mem_cons_of_mem _ (mem_at0.mpr ⟨hl, rfl⟩))
@@ -313,5 +361,58 @@ example : flowFn { fpic := false, types := [] }
     for every function in scope, what the check tests on every emitted function (except the range). -/
 theorem C20_checkBody_sound (ls : List Line) (h : checkBody ls = .ok ()) : FnBalanced ls :=
   ⟨_, verifyL_of_verify _ _ _ (by simpa [checkBody] using h)⟩
+
+/-- **`checkBody` is complete.**  The labelling it infers (forward scans repeated until a scan adds
+    nothing; `length + 1` scans of fuel are proved to suffice) is as good as any: whenever SOME
+    labelling passes `Effect.verify` on the code — one height per label, every jump and fall-through
+    arrives at its label's height, every reachable height within the frame and the eight x87 registers,
+    rsp = 0 at every `return` — the check accepts.  No condition on the label graph (backward-only
+    chains of any length, irreducible loops, labels reached only from dead code). -/
+theorem C20_checkBody_complete (ls : List Line)
+    (h : ∃ lab : Labelling, verify lab (steps ls) (some H.zero) = .ok ()) : checkBody ls = .ok () := by
+  obtain ⟨lab, hv⟩ := h
+  exact verify_inferred (steps ls) lab hv
+
+/-- five labels reached only by backward jumps (the skeleton the three-pass inference rejected) -/
+example : ∃ lab : Labelling, verify lab
+    (steps [ins1 "jmp" (.s ".A"), .label ".D", ins1 "jmp" (.s ".E"), .label ".C", ins1 "jmp" (.s ".D"),
+      .label ".B", ins1 "jmp" (.s ".C"), .label ".A", ins1 "jmp" (.s ".B"), .label ".E"]) (some H.zero) = .ok () :=
+  ⟨[(".A", H.zero), (".B", H.zero), (".C", H.zero), (".D", H.zero), (".E", H.zero)], by rfl⟩
+
+/-- **`checkBody` decides the existence of a labelling.** -/
+theorem C20_checkBody_iff (ls : List Line) :
+    checkBody ls = .ok () ↔ ∃ lab : Labelling, verify lab (steps ls) (some H.zero) = .ok () :=
+  ⟨fun h => ⟨_, h⟩, C20_checkBody_complete ls⟩
+
+/-- **`checkBody` on balanced code.**  Code that is `FnBalanced` (some labelling passes the
+    label-height discipline `verifyL`) is accepted, or rejected with the range complaint and nothing
+    else: the inferred labelling passes `verifyL`, and `verify` differs from `verifyL` only by the test
+    `okH` of every reachable height. -/
+theorem C20_checkBody_balanced (ls : List Line) (h : FnBalanced ls) :
+    checkBody ls = .ok () ∨ ∃ c : H, checkBody ls = .error (rangeMsg c) ∧ okH c = false := by
+  obtain ⟨lab, hv⟩ := h
+  exact verify_of_verifyL _ _ _ (verifyL_inferred (steps ls) lab hv)
+
+example : FnBalanced [ins1 "jmp" (.s ".A"), .label ".B", ins1 "jmp" (.s ".C"), .label ".A", ins1 "jmp" (.s ".B"),
+    .label ".C"] :=
+  ⟨[(".A", H.zero), (".B", H.zero), (".C", H.zero)], by rfl⟩
+
+/-- **C20_function with the executable check (every function body in scope).**  What
+    `C20_function_Statement` asks of `checkBody`, up to the range: for every function whose body is well
+    typed and in scope, the whole-function check accepts the code of the body, or its one complaint is
+    a reachable height out of range (`rangeMsg c` with `okH c = false`: the region of known finding
+    C20-x87-depth-overflow, or rsp above the frame); `assert(depth == 0)` holds. -/
+theorem C20_function_check_partial (p : Program) (fn : Obj) (env : Env) (k : Int)
+    (he : fnEnv p fn = .ok (env, k)) (ht : typedS env fn.body = true) (hf : flowFn env fn.body = true)
+    (hd : treeDistinct fn.body = true)
+    (s s' : St) (ls : List Line) (hg : genStmt env fn.body s = .ok ((), s', ls)) :
+    (checkBody ls = .ok () ∨ ∃ c : H, checkBody ls = .error (rangeMsg c) ∧ okH c = false) ∧
+      s'.depth = s.depth := by
+  obtain ⟨h1, _, h3⟩ := C20_function_flow_partial p fn env k he ht hf hd s s' ls hg
+  exact ⟨C20_checkBody_balanced ls h1, h3⟩
+
+example : flowFn { fpic := false, types := [] }
+    (.block ⟨none, 1, 1⟩ (.cons (.do_ ⟨none, 1, 1⟩ (.block ⟨none, 1, 1⟩ .nil) (.num ⟨none, 1, 1⟩ 0 0 0 0 0)
+      (some ".L..1") (some ".L..2")) .nil)) = true := by decide
 
 end ChibiVerif.Props.C20
